@@ -131,6 +131,10 @@ def check_tags(model: Model, run: Run, folder: Folder) -> bool:
         classes = [fi.cls] if fi.cls else [None]
         if fi.cls:
             classes = [c for c in model.subclasses(fi.cls) if model.find_method(c, fi.name) is fi] or [fi.cls]
+            # a mixin that only makes sense combined with the classes that inherit the method (it names `self.<const>` that they define)
+            concrete = [c for c in classes if c != fi.cls]
+            if concrete and not model.classes[fi.cls].is_dataclass and all(b in ("object",) or b not in model.classes for b in model.classes[fi.cls].bases):
+                classes = concrete
         for k in classes:
             try:
                 if isinstance(tag, ast.Name) and tag.id == "tag":
